@@ -454,6 +454,34 @@ class Ctx:
         self.lean_failure = None
         return True
 
+    def prove_generated(self, gens, prop_modules, extra_targets=("geosdrv",), extra_theorems=()):
+        """Translator tie.  `gens` = [(spec_name, "GeosModel/Generated/X.lean", "GeosModel.Props.CxxGen"), ...]:
+        regenerate each Generated file from the CURRENT source tree (translate/cxx2lean.py + translate/specs/<spec>.py), then
+        build and audit the property modules together with the bridge modules (`gen_*_eq` theorems: regenerated definition =
+        hand-written model, for all arguments).  A refusal of the translator or a broken bridge theorem is a broken tie;
+        the caller's correspondence streams then search for a concrete failing input.  Regeneration + build run under one
+        lock so that concurrent checks against different source trees cannot mix their generated files."""
+        sys.path.insert(0, os.path.join(ROOT, "translate"))
+        import cxx2lean
+        rec = {}
+        with Lock("lake-gen"):
+            bridges = []
+            for spec_name, rel, bridge in gens:
+                out = os.path.join(LEAN, rel)
+                try:
+                    text = cxx2lean.generate(cxx2lean.load_spec(spec_name), REPO, out)
+                    rec[spec_name] = {"generated": rel, "functions": len(re.findall(r"^def ", text, re.M)), "bridge": bridge,
+                                      "sha1": hashlib.sha1(text.encode()).hexdigest()[:12]}
+                    bridges.append(bridge)
+                except (cxx2lean.Refuse, OSError) as ex:
+                    rec[spec_name] = {"generated": rel, "refused": str(ex), "bridge": bridge}
+                    self.violation("translate/cxx2lean.py (spec %s) refuses the current source: %s — the regenerated model is stale, so "
+                                   "the bridge theorems of %s say nothing about this tree" % (spec_name, ex, bridge),
+                                   {"kind": "tie-broken", "translator": "cxx2lean.py", "spec": spec_name, "detail": str(ex)}, nofail=True)
+            proved = self.prove(list(prop_modules) + bridges, extra_targets=extra_targets, extra_theorems=extra_theorems)
+        self.cov["translator"] = rec
+        return proved
+
     def base_trust(self, extra=()):
         self.cov["trusted_base"] = [
             "Lean 4.33 kernel; axioms limited to propext, Classical.choice, Quot.sound (audited per theorem each run)",
